@@ -29,14 +29,15 @@ def bounds(tier):
         return {
             'menus': [
                 {'features': 3, 'names': ('A', 'B'), 'placements': ('top', 'domain')},
-                {'features': 2, 'names': ('A', 'B'), 'placements': PLACEMENTS},
+                # names of several letters, one a prefix of the other (one-letter strings are shared objects in CPython)
+                {'features': 2, 'names': ('A', 'B'), 'placements': PLACEMENTS, 'spelling': {'A': 'Pose', 'B': 'Po', 'Z': 'ose'}},
                 {'features': 4, 'names': ('A',), 'placements': ('top',)},
             ]
         }
     return {
         'menus': [
             {'features': 4, 'names': ('A', 'B'), 'placements': ('top', 'domain')},
-            {'features': 3, 'names': ('A', 'B'), 'placements': PLACEMENTS},
+            {'features': 3, 'names': ('A', 'B'), 'placements': PLACEMENTS, 'spelling': {'A': 'Pose', 'B': 'Po', 'Z': 'ose'}},
             {'features': 5, 'names': ('A',), 'placements': ('top',)},
         ]
     }
@@ -60,9 +61,11 @@ def features(sk, pk, b):
     fs = [('wide', p) for p in pos]
     for p in pos:
         for j in (0, 1):
+            sp = b.get('spelling', {})
             for n in b['names']:
-                fs.append(('alias', p, j, n))
+                fs.append(('alias', p, j, sp.get(n, n)))
             for n in b['names'] + ('Z',):
+                n = sp.get(n, n)
                 for pl in b['placements']:
                     fs.append(('ref', p, j, n, pl))
     return fs
